@@ -392,3 +392,48 @@ Proof.
       end
   end.
 Qed.
+
+(* 16. the first test of a test list, the test of `not`: an unknown name, an action, a string *)
+Ltac inner_test text nmore :=
+  let toks := eval vm_compute in (fst (lex text)) in
+  let p := eval vm_compute in (firstn 10 toks) in
+  let r := eval vm_compute in (skipn 10 toks) in
+  match r with
+  | ?tn :: ?tl :: ?r2 =>
+      let more := eval vm_compute in (firstn nmore r2) in
+      let r3 := eval vm_compute in (skipn nmore r2) in
+      match r3 with
+      | ?t :: ?rest =>
+          let gd := eval vm_compute in (get_command_instance gen_tables [bs "fileinto"] (t_val tn)) in
+          let gl := eval vm_compute in (get_command_instance gen_tables [bs "fileinto"] (t_val tl)) in
+          match gd with
+          | inl ?d =>
+              match gl with
+              | inl ?dl =>
+                  let aa := eval vm_compute in (hd (mkArg [] [] false None None None None) (d_args d)) in
+                  pose proof (inner_test_rejected gen_tables gen_twf text p tn tl more t rest [bs "fileinto"] None 1 d aa dl
+                                px_wf ltac:(vm_compute; reflexivity) eq_refl ltac:(vm_compute; reflexivity) eq_refl eq_refl eq_refl eq_refl
+                                eq_refl ltac:(vm_compute; reflexivity) eq_refl ltac:(vm_compute; reflexivity)
+                                ltac:(first [left; split; [reflexivity|eexists; split; reflexivity]|right; split; reflexivity])
+                                eq_refl) as R;
+                  revert R;
+                  match goal with |- match ?k with _ => _ end -> _ => let v := eval vm_compute in k in change k with v end;
+                  cbv iota;
+                  try match goal with |- match ?c with _ => _ end -> _ => let v := eval vm_compute in c in change c with v end;
+                  cbv iota; intro R
+              end
+          end
+      end
+  end.
+
+Example ex_unknown_in_test_list :
+  parse gen_tables (bs (px_text ++ "if anyof (foo, true) { } }")) = Reject (EUnknownCommand (bs "foo")) 56 3.
+Proof. inner_test (bs (px_text ++ "if anyof (foo, true) { } }")) 1. exact R. Qed.
+
+Example ex_action_after_not :
+  exists e, parse gen_tables (bs (px_text ++ "if not keep { } }")) = Reject e 53 4.
+Proof. inner_test (bs (px_text ++ "if not keep { } }")) 0. eexists. apply R. vm_compute. discriminate. Qed.
+
+Example ex_string_after_not :
+  parse gen_tables (bs (px_text ++ "if not ""x"" { } }")) = Reject EExpected 53 3.
+Proof. inner_test (bs (px_text ++ "if not ""x"" { } }")) 0. exact R. Qed.
